@@ -25,6 +25,60 @@ DOC_KNOBS = dict(frag_pct=35, max_frags=6, repeat_pct=40, skip_pct=25, var_pct=4
                  max_ops=3, introspection_pct=40, alias_pct=35, op_kinds=("query", "mutation", "subscription"))
 
 
+def chain_document(n):
+    """A valid document: F_i spreads F_{i+1} twice (fragments sharing a sub-fragment, n + 1 fragments)."""
+    parts = ["query Q($v: Int) { ...F0 }"]
+    for i in range(n):
+        parts.append("fragment F%d on Query { q { ...F%d } x: q { ...F%d } }" % (i, i + 1, i + 1))
+    parts.append("fragment F%d on Query { a(p: $v) }" % n)
+    return " ".join(parts)
+
+
+def chain_work_check(seed):
+    """The work spent on accepting such a document is counted in interpreter-level function calls (deterministic,
+    implementation-agnostic): three more fragments may not multiply it (a tree walk of the spread graph doubles it
+    with every fragment, so that a 2 kB valid document is never answered)."""
+    import sys
+    from simv.actors import forget
+    from simv.oracle import V
+    from simv.simloop import SimLoop, run_sim
+    from simv.tape import Tape
+    from tartiflette import Resolver, create_engine
+    name = "C06_%d_chain" % seed
+
+    @Resolver("Query.q", schema_name=name)
+    async def q(parent, args, ctx, info):
+        return None  # the chain is not descended at run time: only validation sees all of it
+
+    try:
+        loop = SimLoop(Tape(seed).sub("chain"), "fifo", 0, "none")
+        engine = run_sim(loop, create_engine("type Query { a(p: Int): Int q: Query }", schema_name=name, query_cache_decorator=None))
+        counts = []
+        for n in (9, 12):
+            calls = [0]
+
+            def prof(frame, event, arg, calls=calls):
+                if event == "call":
+                    calls[0] += 1
+            doc = chain_document(n)
+            lp = SimLoop(Tape(seed).sub("chain%d" % n), "fifo", 0, "none")
+            sys.setprofile(prof)
+            try:
+                resp = run_sim(lp, engine.execute(doc, variables={"v": 1}))
+            finally:
+                sys.setprofile(None)
+            if resp.get("errors"):
+                return [V("valid_request_refused", "fragment chain of %d refused: %r" % (n, resp["errors"][:1]), tag="chain")], counts
+            counts.append(calls[0])
+        if counts[1] > 4 * counts[0]:
+            return [V("acceptance_work_explodes", "accepting a chain of 13 fragments (each spreading the next one twice) takes %d function "
+                      "calls, a chain of 10 takes %d: the spread graph is walked as a tree, a 2 kB valid document would never be "
+                      "answered" % (counts[1], counts[0]))], counts
+        return [], counts
+    finally:
+        forget(name)
+
+
 def run_one(seed, preset=None, tier="quick", want_case=False):
     r = run_single(ID, seed, preset, want_case, doc_knobs=DOC_KNOBS, schema_knobs={"max_objects": 4, "subscription_pct": 30})
     if r.get("early"):
@@ -35,4 +89,13 @@ def run_one(seed, preset=None, tier="quick", want_case=False):
                         "introspection___type", "introspection___schema", "fragments_after_use", "merged_subselection",
                         "fragment_visited_twice", "skip_on_spread", "subscription_root_repeated") if p.get(k)]
     r["nontrivial"] = bool(not r["viol"] and (len(case.doc.fragments()) >= 2 or hits))
+    if seed % 40 == 0:
+        cv, counts = chain_work_check(seed)
+        r["probes"]["fragment_chain_work_measured"] = 1
+        if cv:
+            r["viol"].extend(cv)
+            r["nontrivial"] = False
+            if "tape" not in r:
+                from simv.tape import Tape
+                r["tape"] = {}
     return strip_private(r)
